@@ -24,10 +24,12 @@ MANIFEST = {
             "ghost log of fixup records with the Spec/Offset field decoder; Props/C03B carries them to the monitor's CPU reading "
             "(judgeRel: end of instruction + sign-extended field on x86, pc + field on AArch64, ADRP pages) - what remains evaluated on "
             "every explored program rather than proved is the monitor's own bookkeeping (its Ref records name the same field as the "
-            "model's log; opcode-based field location) and references encoded directly against an already bound label. Buffer growth, set_offset, named "
+            "model's log; opcode-based field location). References encoded directly against an already bound label: Props/C03D says "
+            "what is written (x86 rel8/rel32, [rip+label], AArch64 EmitOp_DispImm), Props/C03S that those bytes are still there at the end "
+            "of every program (direct_field_persists; end to end for x86-64 branches and AArch64: direct_jmp_final, direct_a64_final). Buffer growth, set_offset, named "
             "labels and the Builder path are not modelled. Model follows the repaired code (fixes/C03-1, C03-2).",
 }
-MODS = ["AsmjitVerif.Props.C03", "AsmjitVerif.Props.C03E", "AsmjitVerif.Props.C03B", "AsmjitVerif.Props.C03D"]
+MODS = ["AsmjitVerif.Props.C03", "AsmjitVerif.Props.C03E", "AsmjitVerif.Props.C03B", "AsmjitVerif.Props.C03D", "AsmjitVerif.Props.C03S"]
 M64 = (1 << 64) - 1
 
 JK = ["jmp", "jz", "call", "jecxz", "loop"]
